@@ -231,6 +231,16 @@ def _run_one(v, case, scratch, i):
                 da = ds[o]
                 v.count("outputs_checked")
                 if f["mapspec"] is None:
+                    if f.get("ishape_via") == "plain":
+                        # a plain array value: a variable of its own rank with its values (the names of its dims are pipefunc's choice)
+                        v.count("plain_array_outputs_checked")
+                        if len(da.dims) != len(f["internal_shape"]) or len(set(da.dims)) != len(da.dims):
+                            v.bad("plain-array-output-dims", f"{o} (no MapSpec, a rank-{len(f['internal_shape'])} array) has dims {da.dims}", **w)
+                        elif set(map(str, da.dims)) & {a for g in case["funcs"] if g["mapspec"] for a in g["out_axes"]}:
+                            v.bad("plain-array-output-shares-a-mapspec-axis", f"{o} (no MapSpec) lives on MapSpec axes {da.dims}", **w)
+                        elif probes.render(da.values) != probes.render(env[o]):
+                            v.bad("no-mapspec-output-value", f"{o}: {probes.render(da.values)[:100]} != {probes.render(env[o])[:100]}", **w)
+                        continue
                     if da.dims != ():
                         v.bad("no-mapspec-output-has-dims", f"{o} (no MapSpec) has dims {da.dims}", **w)
                     elif probes.render(da.values) != probes.render(env[o]):
@@ -388,6 +398,9 @@ def run_case(desc):
                 v.count("cases_reusing_the_name_of_a_reduced_axis")
             else:
                 case = mapgen.case_from_seed(desc["seed"], i, allow_int_arrays=(i % 2 == 0))
+            if i % 3 == 0:
+                # functions without MapSpec that return a plain ndarray of rank 1-3 (nobody indexes it)
+                case = mapgen.with_plain_arrays(case, random.Random(f"c19plain:{desc['seed']}:{i}"))
             v.hit(mapgen.classes(case))
             nt = run_one(v, case, scratch, i)
             if nt:
@@ -410,6 +423,8 @@ def finalize(agg, tier, seed):
         floors.append(f"only {c.get('cases_reusing_the_name_of_a_reduced_axis', 0)} cases that map an input along the name of a reduced axis (< 20)")
     if c.get("cases_with_declared_defaults_overridden_by_inputs", 0) < 20:
         floors.append(f"only {c.get('cases_with_declared_defaults_overridden_by_inputs', 0)} cases with declared array defaults overridden by inputs (< 20)")
+    if c.get("plain_array_outputs_checked", 0) < 20:
+        floors.append(f"only {c.get('plain_array_outputs_checked', 0)} plain-array outputs without MapSpec checked (< 20)")
     if c.get("coordinate_expectations", 0) < 300:
         floors.append("fewer than 300 coordinate expectations checked")
     if c.get("selections_compared", 0) < 300:
